@@ -26,7 +26,7 @@ pub fn run_one(out: &mut Out, s: &Value) {
     let k = vcommon::n(s, "k") as u64;
     let ovr = s.get("override").and_then(|x| x.as_bool()).unwrap_or(false);
     let cfg = if ovr { json!({"concurrency": 8}) } else { json!({"concurrency": k}) };
-    let mut run = Run::new(&cfg);
+    let mut run: Run = Run::new(&cfg);
     let addrs: Vec<i64> = (0..n as i64).map(|i| 10 + i).collect();
     let mut d = json!({"c": "dial", "peer": 1, "cond": "Always", "addrs": addrs});
     if ovr {
